@@ -55,8 +55,14 @@ pub enum Op {
     ImportRegOlder,
     /// import a frame whose topic contains NUL (must be rejected whole)
     ImportNul,
+    /// import a *different* frame under the id of the stored frame `rank` (an import stores a
+    /// frame as is: the frame it replaces must leave no trace behind)
+    ImportOver { rank: usize, topic: String, ctx: Ctx, ttl: String },
     /// set the clock to expiry(rank)+delta
     Clock { rank: usize, delta: i64 },
+    /// composite step: the clock reaches expiry(rank), a read notices it, the collector drains
+    /// (= Clock{rank,0} ; ReadBattery ; GcRun, counted as one step of depth)
+    ExpireCollect { rank: usize },
     ReadBattery,
     GcStep,
     GcRun,
@@ -401,6 +407,12 @@ impl Exec {
     /// Apply one operation. `check` = evaluate the oracles after it (the replayed prefix of a
     /// history was already checked when it was a leaf itself, so only the last step needs it).
     pub fn apply(&mut self, op: &Op, check: bool) {
+        if let Op::ExpireCollect { rank } = op {
+            self.apply(&Op::Clock { rank: *rank, delta: 0 }, false);
+            self.apply(&Op::ReadBattery, false);
+            self.apply(&Op::GcRun, check);
+            return;
+        }
         if check && self.cfg.check_follower {
             // flush what earlier (unchecked) steps broadcast
             let _ = self.drain_follower();
@@ -428,13 +440,26 @@ impl Exec {
                     self.time_frames += 1;
                     ttl_v = Some(TTL::Time(d + Duration::from_millis(1000 * self.time_frames)));
                 }
+                // `{"$deep": n}` stands for a meta nested n levels: the store may refuse it (its
+                // own encoding is one level deeper), but whatever it accepts must stay readable
+                let fragile = meta.as_ref().and_then(|m| m.get("$deep")).and_then(|d| d.as_u64());
+                let meta = &match fragile {
+                    Some(n) => {
+                        let mut v = Value::Null;
+                        for _ in 0..n {
+                            v = Value::Array(vec![v]);
+                        }
+                        Some(v)
+                    }
+                    None => meta.clone(),
+                };
                 let fr = Frame::builder(topic.clone(), ctx_id)
                     .maybe_hash(hash.clone())
                     .maybe_meta(meta.clone())
                     .maybe_ttl(ttl_v.clone())
                     .build();
                 let res = self.store().append(fr);
-                let should = self.usable(&ctx_id) && !topic.contains('\0') && topic != "xs.context";
+                let should = if fragile.is_some() { res.is_ok() } else { self.usable(&ctx_id) && !topic.contains('\0') && topic != "xs.context" };
                 self.after_append(res, should, topic, ctx_id, ttl_v, meta, &hash, &before_dump, &mut expect_broadcast);
             }
             Op::Register { ctx, ttl } => {
@@ -549,6 +574,25 @@ impl Exec {
                 let id = self.older_id();
                 self.import_new(id, "xs.context", ZERO_CONTEXT, "forever");
             }
+            Op::ImportOver { rank, topic, ctx, ttl } => {
+                let ctx_id = self.ctx_id(ctx).expect("menu: ctx exists");
+                let id = self.rank_id(*rank).expect("menu: rank exists");
+                let old = self.live[&id].frame.clone();
+                let f = Frame::builder(topic.to_string(), ctx_id).id(id).maybe_ttl(parse_ttl_opt(ttl)).build();
+                match self.store().insert_frame(&f) {
+                    Ok(()) => {
+                        if old.topic == "xs.context" && old.context_id == ZERO_CONTEXT {
+                            self.ctxs.remove(&id);
+                        }
+                        if topic == "xs.context" && ctx_id == ZERO_CONTEXT {
+                            self.ctxs.insert(id);
+                        }
+                        self.note_head_ttl(&f);
+                        self.live.insert(id, MFrame { frame: f, evictable: false, covered: false, imported: true });
+                    }
+                    Err(e) => self.add(finding("import.err", &["C20", "C01"], format!("import of a well-formed frame over a stored id failed: {}", e))),
+                }
+            }
             Op::ImportNul => {
                 let id = self.older_id();
                 let f = Frame::builder("a\0b", ZERO_CONTEXT).id(id).build();
@@ -564,6 +608,7 @@ impl Exec {
                 xs::verif::set_clock(Some(t));
                 self.now = Some(t);
             }
+            Op::ExpireCollect { .. } => unreachable!("composite step is expanded above"),
             Op::ReadBattery => {
                 self.read_battery(true);
             }
